@@ -561,6 +561,22 @@ class FnTr:
                 code = self.coerce(code, t, env[lst][1], st)
                 return 'let %s := %s ++ [%s]\n' % (mangle(lst), mangle(lst), code) + self.block(rest, env, tail)
             self.bad(st, 'expression statement')
+        if isinstance(st, ast.If) and not st.orelse and len(st.body) == 1 and isinstance(st.body[0], ast.Assign) \
+                and isinstance(st.test, ast.UnaryOp) and isinstance(st.test.op, ast.Not) \
+                and isinstance(st.test.operand, ast.Call) and isinstance(st.test.operand.func, ast.Name) \
+                and st.test.operand.func.id == 'isinstance' and len(st.test.operand.args) == 2 \
+                and isinstance(st.test.operand.args[0], ast.Name) and isinstance(st.test.operand.args[1], ast.Name) \
+                and st.test.operand.args[1].id == 'str' and len(st.body[0].targets) == 1 \
+                and isinstance(st.body[0].targets[0], ast.Name) \
+                and st.body[0].targets[0].id == st.test.operand.args[0].id \
+                and env.get(st.test.operand.args[0].id) == ('Option', ('Str',)):
+            # NARROWING:  if not isinstance(x, str): x = <Str>   (x : a str or something else)  ->  afterwards x : Str
+            x = st.test.operand.args[0].id
+            code, t = self.expr(st.body[0].value, env)
+            if t == ('Str',):
+                env2 = dict(env)
+                env2[x] = ('Str',)
+                return 'let %s := (Option.getD %s %s)\n' % (mangle(x), mangle(x), code) + self.block(rest, env2, tail)
         if isinstance(st, ast.If):
             c = self.cond(st.test, env)
             ra, rb = always_returns(st.body), always_returns(st.orelse)
@@ -581,10 +597,7 @@ class FnTr:
                 self.bad(st, '`if` without an effect on the variables defined before it')
 
             def out(env_b):
-                for n in mod:
-                    if env_b[n] != env[n]:
-                        self.bad(st, 'variable %s changes its type in a branch' % n)
-                return tuple_pat([mangle(n) for n in mod])
+                return tuple_pat([self.coerce(mangle(n), env_b[n], env[n], st) for n in mod])
             a = self.block(st.body, env, out)
             b = self.block(st.orelse, env, out)
             return self.join_let(mod, 'if %s then\n%s\nelse\n%s' % (c, ind(a), ind(b))) + self.block(rest, env, tail)
@@ -660,11 +673,19 @@ class FnTr:
             return isinstance(st, ast.Assign) and len(st.targets) == 1 and isinstance(st.targets[0], ast.Name) \
                 and st.targets[0].id == name
         body = self.f.body
+        def stops(st):
+            if 'stop' in rg:
+                return assigns(st, rg['stop'])
+            return isinstance(st, ast.If) and any(
+                isinstance(n, ast.Call) and isinstance(n.func, ast.Name) and n.func.id == rg['stop_test']
+                for n in ast.walk(st.test))
         a = [i for i, st in enumerate(body) if assigns(st, rg['start'])]
-        b = [i for i, st in enumerate(body) if assigns(st, rg['stop'])]
-        if not a or not b or b[0] <= a[0]:
-            self.bad(self.f, 'region %s .. %s not found' % (rg['start'], rg['stop']))
+        b = [i for i, st in enumerate(body) if stops(st) and a and i > a[0]]
+        if not a or not b:
+            self.bad(self.f, 'region %s .. %s not found' % (rg['start'], rg.get('stop', rg.get('stop_test'))))
         for st in body[:a[0]]:
+            if isinstance(st, ast.If) and not st.orelse and ast.unparse(st.test) in rg.get('false_before', []):
+                continue        # a guard the spec declares false on the declared parameter types
             if not (isinstance(st, ast.Expr) and isinstance(st.value, ast.Constant)):
                 self.bad(st, 'statement before the region')
         ret = ast.Return(value=ast.Name(id=rg['result'], ctx=ast.Load()))
